@@ -247,7 +247,8 @@ inline double restore_err(const std::vector<std::vector<double>> & a, const std:
   return worst;
 }
 
-inline double relm(const MXL & X, const MXL & R, double floor_ = 1e-3) { return orc::rel(X, R, floor_); }
+// relative to the largest entry, but not below 1: the statement is about f with O(1) values and derivatives
+inline double relm(const MXL & X, const MXL & R, double floor_ = 1.0) { return orc::rel(X, R, floor_); }
 
 // ---- generic first-order check: Numerical mode against the reference, subsets, restore -------------------
 template<class F, class... Args, std::size_t... Sub>
@@ -266,7 +267,7 @@ void subset_check(const char * nm, const F & f, std::tuple<Args...> & xs, const 
   ctx.require(std::string(nm) + ": subset derivative has the selected columns", Js.cols() == static_cast<Eigen::Index>(cols.size()) && Js.rows() == Jfull.rows());
   if (Js.cols() != static_cast<Eigen::Index>(cols.size())) return;
   double e = 0;
-  const double sc = std::max(1e-3, Jfull.cwiseAbs().maxCoeff());
+  const double sc = std::max(1.0, Jfull.cwiseAbs().maxCoeff());
   for (size_t c = 0; c < cols.size(); ++c) e = std::max(e, (Js.col(static_cast<Eigen::Index>(c)) - Jfull.col(cols[c])).cwiseAbs().maxCoeff());
   ctx.le(std::string(nm) + ": subset derivative == columns of the full derivative", e / sc, 1e-9);
 }
@@ -325,8 +326,9 @@ void second_order(const char * nm, const F & f, std::tuple<Args...> xs, vf::Ctx 
   ctx.le(std::string(nm) + ": K=2 by-reference arguments restored", restore_err(saved, flat_tuple(xs)), 1e-15);
   ctx.require(std::string(nm) + ": Hessian shape", H.rows() == Href.rows() && H.cols() == Href.cols() && J.cols() == Jref.cols());
   if (H.rows() != Href.rows() || H.cols() != Href.cols()) return;
-  ctx.le(std::string(nm) + ": numerical first derivative (K=2)", relm(MX(J).cast<orc::LD>(), Jref), 1e-3);
-  ctx.le(std::string(nm) + ": numerical second derivative", relm(MX(H).cast<orc::LD>(), Href, 1e-2), 5e-2);
+  // (the first derivative returned by the second-order scheme uses the larger step eps^(1/4): sanity bound only)
+  ctx.le(std::string(nm) + ": numerical first derivative (K=2)", relm(MX(J).cast<orc::LD>(), Jref), 1e-2);
+  ctx.le(std::string(nm) + ": numerical second derivative", relm(MX(H).cast<orc::LD>(), Href, 1.0), 5e-2);
 }
 
 // ---- checks -----------------------------------------------------------------------------------------------
